@@ -62,6 +62,31 @@ def programs(ctx):
             p.make(5, 'D', F(j, 16), 'd', 'frac')
             p.pow(5, 1, 3)
         progs.append(p.d())
+    # money of different currencies while a money converter is active: the converted operand must not be
+    # rounded on its own (rounded once)
+    for dm in MODES:
+        p = Prog('c05-%s-mconv' % dm)
+        p.setmode(dm)
+        p.setconv(True)
+        k = 0
+        for (u, v) in (('Z2', 'Z3'), ('Z3', 'Z2'), ('Z2', 'Z0'), ('Z0', 'Z2'), ('Z3', 'Z0'), ('Z0', 'Z3')):
+            for j in (range(-12, 40) if not quick else range(-6, 30, 2)):
+                k += 1
+                a = units[u]['quantum'] * (501 + 3 * j)
+                b = units[v]['quantum'] * (7 * j + 2)
+                p.make(1, 'Money', a, u, 'dec')
+                p.make(2, 'Money', b, v, 'frac' if k % 2 else 'dec')
+                p.bin('Add', 1, 2, 3)
+                p.bin('Sub', 1, 2, 3)
+                p.convert(2, u, 3)
+                if k % 4 == 0:
+                    p.cmp('lt', 1, 2)
+                    p.cmp('eq', 3, 2)
+        p.setconv(False)
+        p.make(1, 'Money', F(5), 'Z2')
+        p.make(2, 'Money', F(5), 'Z3')
+        p.bin('Add', 1, 2, 3)          # converter removed: mixing is rejected again
+        progs.append(p.d())
     # random behaviours mixing every producing operation and SetMode (depth 12+)
     nrand = 150 if quick else 2500
     for j in range(nrand):
